@@ -5,6 +5,7 @@
    <id> M <forceCAS> <ignoreNoName> <pushed> <layers>  names existing after the copy
    <id> U <umask> <preserve> <ck> <dok> <sok> <prefix> <tree>   Push verdict under an altered descriptor
    <id> F <umask> <prefix> <hex>                        a plain file pushed under its own descriptor
+   <id> E <umask> <preserve> <prefix> <n> (<name> <f|d|l> <mode> <payload>)*   an explicit entry list extracted
    prefix = hex components joined by '/', tree = D mode mtime n (name tree)* | F mode mtime hex | L mtime hex
    a trailing token starting with '#' (the scenario, for replays) is ignored. *)
 let comps (s : string) : n list list =
@@ -101,6 +102,22 @@ let () =
          let eq = (tar_entries (comps pre) r ta = tar_entries (comps pre) r tb) in
          Printf.printf "%s %s\n" id (if eq then "EQ" else "NE")
        | _ -> Printf.printf "BADLINE %s\n" l)
+    | id :: "E" :: umask :: preserve :: pre :: n :: toks ->
+      let rec ents k toks acc =
+        if k = 0 then List.rev acc else
+        match toks with
+        | nm :: typ :: mode :: payload :: rest ->
+          let kind = match typ with
+            | "f" -> EReg (str_of_hex payload)
+            | "d" -> EDir
+            | _ -> ELnk (str_of_hex payload) in
+          ents (k - 1) rest ({ e_name = comps nm; e_kind = kind; e_mode = n_of_int (int_of_string mode); e_mtime = n_of_int 0 } :: acc)
+        | _ -> failwith "entries" in
+      let es = ents (int_of_string n) toks [] in
+      (match extract (comps pre) (n_of_int (int_of_string umask)) (preserve = "1") es with
+       | Ok f -> Printf.printf "%s OK %s\n" id (show_fs f)
+       | Err (XAbsLink | XWriteThrough) -> Printf.printf "%s UNJUDGED\n" id
+       | Err e -> Printf.printf "%s %s\n" id (show_err e))
     | [id; "M"; fc; inn; pushed; layers] ->
       let s = copy_into (fc = "1") (inn = "1") (pairs pushed) (pairs layers) in
       let names = List.sort compare (List.map (fun (nm, d) -> Printf.sprintf "%s:%d" (hex_of_str nm) (int_of_nat d)) s.s_names) in
